@@ -539,11 +539,17 @@ class Gen:
             lbe = self.int_lit(lb)
             ube = self.int_lit(ub)
             if r.random() < 0.15:
-                # fractional constant bound: the declared bound is the rounded value (no .5 ties)
-                fr = r.choice([-0.3, 0.4, 0.3, -0.4])
+                # fractional constant bound: the declared bound is the rounded value; a .5 tie goes to the even neighbour, so
+                # ties are only written next to an even bound (where they round back to it)
+                fr = r.choice([-0.3, 0.4, 0.3, -0.4] + ([0.5, -0.5] if ub % 2 == 0 else []))
                 v = ub + fr
                 ube = ('lit', '!', abs(v)) if v >= 0 else ('un', '-', ('lit', '!', abs(v)))
                 self.features.add('fractional-bound')
+            if r.random() < 0.1 and (explicit_lb or lb != 0):
+                fr = r.choice([-0.3, 0.4] + ([0.5, -0.5] if lb % 2 == 0 else []))
+                v = lb + fr
+                lbe = ('lit', '!', abs(v)) if v >= 0 else ('un', '-', ('lit', '!', abs(v)))
+                self.features.add('fractional-lower-bound')
             if dyn:
                 x = r.choice(self.vars_of(sc, '%'))
                 ube = ('bin', '+', ube, ('par', ('bin', '-', x, x)))
